@@ -101,7 +101,12 @@ def write_cases(path, cases):
     n = 0
     with open(path, "w", encoding="utf-8") as f:
         for c in cases:
-            f.write(json.dumps(c, ensure_ascii=False))
+            line = json.dumps(c, ensure_ascii=False)
+            try:
+                line.encode("utf-8")
+            except UnicodeEncodeError:          # lone surrogates (C20 only): keep them as JSON escapes
+                line = json.dumps(c, ensure_ascii=True)
+            f.write(line)
             f.write("\n")
             n += 1
     return n
